@@ -176,6 +176,11 @@ func keepNilPropCallListChainMiddleware(next _PropCallMiddlewareHandler) _PropCa
 			}
 
 			elem := next(env, nextRecv, propName, nil, chainArg, args, kwargs)
+			// NOTE: raised error stops the chain (it must not be kept as an element)
+			if elem.Type() == object.ErrType {
+				return elem
+			}
+
 			elems = append(elems, elem)
 		}
 
